@@ -5,6 +5,7 @@
    and — audit 2, FMT-1 — "date formats made only of weekday / era / Buddhist-year tokens were
    typed as numbers"; there is no known class left. *)
 From Calamine Require Import Prelude NumFmt NumFmt_proofs.
+From Calamine Require XlsbRec XlsbRec_proofs XlsbStyles XlsbStyles_proofs.
 Open Scope N_scope.
 
 (* string half: for every derivation of the number-format grammar the scanner
@@ -98,6 +99,71 @@ Theorem C10_date_iff_style_xlsb :
     xlsb_cell_number (xlsb_formats (enc_biff t)) is_1904 style_ref v =
     spec_cell (resolve t fmt) is_1904 v.
 Proof. exact date_iff_style_xlsb. Qed.
+
+(* ---- xlsb: the style table as it is read from the bytes of xl/styles.bin (XlsbStyles.v) ----
+   A layout of the part = records before FMTS, the optional FMTS (BrtBeginFmts, BrtFmt records with
+   other records between them), records between FMTS and CELLXFS (BrtEndFmts, FONTS, FILLS, BORDERS,
+   CELLSTYLEXFS with BrtXF records of its own), CELLXFS (BrtBeginCellXFs, BrtXF records with other
+   records between them), arbitrary bytes behind the last cell XF; every record in any framing
+   form, every body outside the fields read arbitrary — the byte pairs E7 04 / E9 04 (the ids of
+   BrtBeginFmts / BrtBeginCellXFs) included.  Xlsb::read_styles returns the table of the BrtFmt
+   and BrtXF records: *)
+Theorem C10_xlsb_read_styles :
+  forall L : XlsbStyles.slayout, XlsbStyles.wf_slayout L = true ->
+    XlsbStyles.read_styles (Some (XlsbStyles.encode_styles L)) =
+    Ok (xlsb_formats (XlsbStyles.styles_of L)).
+Proof. exact XlsbStyles_proofs.read_styles_encode. Qed.
+
+(* ... so it does not depend on any other record of the part, nor on the framing *)
+Theorem C10_xlsb_styles_independent :
+  forall L1 L2 : XlsbStyles.slayout,
+    XlsbStyles.wf_slayout L1 = true -> XlsbStyles.wf_slayout L2 = true ->
+    XlsbStyles.styles_of L1 = XlsbStyles.styles_of L2 ->
+    XlsbStyles.read_styles (Some (XlsbStyles.encode_styles L1)) =
+    XlsbStyles.read_styles (Some (XlsbStyles.encode_styles L2)).
+Proof. exact XlsbStyles_proofs.read_styles_independent. Qed.
+
+(* ... and with C10_date_iff_style_xlsb: from the bytes of styles.bin to the cell *)
+Theorem C10_date_iff_style_xlsb_bytes :
+  forall (L : XlsbStyles.slayout) (t : style_table) (is_1904 : bool) (style_ref : N) (v : num)
+         (fmt : option N),
+    XlsbStyles.wf_slayout L = true -> XlsbStyles.styles_of L = enc_biff t ->
+    ids_below 65536 t -> xfs_present t -> customs_off_builtin_dates t ->
+    nth_error (xfs t) (N.to_nat style_ref) = Some fmt ->
+    exists formats,
+      XlsbStyles.read_styles (Some (XlsbStyles.encode_styles L)) = Ok formats /\
+      xlsb_cell_number formats is_1904 style_ref v = spec_cell (resolve t fmt) is_1904 v.
+Proof. exact XlsbStyles_proofs.date_iff_style_xlsb_bytes. Qed.
+
+(* totality: on every byte string, and without the part, a table or an error *)
+Theorem C10_no_panic_xlsb_read_styles : forall part : option (list N),
+  XlsbStyles.read_styles part <> Panic /\ XlsbStyles.read_styles part <> OutOfFuel.
+Proof. exact XlsbStyles_proofs.no_panic_read_styles. Qed.
+
+(* non-vacuity: Excel's shape of the part, with a font coloured #E90420, one coloured #10E704, a
+   font name U+04E9 U+04E7, a fill and a border holding both pairs, a cell-style XF, FRT junk *)
+Example C10_xlsb_styles_nonvacuous :
+  XlsbStyles.wf_slayout XlsbStyles_proofs.example_styles = true /\
+  xlsb_formats (XlsbStyles.styles_of XlsbStyles_proofs.example_styles) =
+    [Other; DateTime; TimeDelta; DateTime; TimeDelta] /\
+  XlsbStyles.read_styles (Some (XlsbStyles.encode_styles XlsbStyles_proofs.example_styles)) =
+    Ok [Other; DateTime; TimeDelta; DateTime; TimeDelta].
+Proof. exact XlsbStyles_proofs.example_styles_legal. Qed.
+
+Example C10_xlsb_styles_collide_nonvacuous :
+  existsb (fun r : XlsbRec.rawrec => XlsbStyles_proofs.has_pair 233 4 (snd r))
+          (XlsbStyles.sl_mid XlsbStyles_proofs.example_styles) = true /\
+  existsb (fun r : XlsbRec.rawrec => XlsbStyles_proofs.has_pair 231 4 (snd r))
+          (XlsbStyles.sl_mid XlsbStyles_proofs.example_styles) = true.
+Proof. exact XlsbStyles_proofs.example_styles_collides. Qed.
+
+Example C10_xlsb_styles_independent_nonvacuous :
+  XlsbStyles.wf_slayout XlsbStyles_proofs.bare_styles = true /\
+  XlsbStyles.styles_of XlsbStyles_proofs.bare_styles =
+    XlsbStyles.styles_of XlsbStyles_proofs.example_styles /\
+  XlsbStyles.encode_styles XlsbStyles_proofs.bare_styles <>
+    XlsbStyles.encode_styles XlsbStyles_proofs.example_styles.
+Proof. exact XlsbStyles_proofs.example_independent. Qed.
 
 (* what spec_cell says, spelled out *)
 Theorem C10_spec_cell_meaning :
@@ -207,6 +273,10 @@ Check C10_date_iff_style_xlsb :
     nth_error (xfs t) (N.to_nat style_ref) = Some fmt ->
     xlsb_cell_number (xlsb_formats (enc_biff t)) is_1904 style_ref v =
     spec_cell (resolve t fmt) is_1904 v.
+Check C10_xlsb_read_styles :
+  forall L : XlsbStyles.slayout, XlsbStyles.wf_slayout L = true ->
+    XlsbStyles.read_styles (Some (XlsbStyles.encode_styles L)) =
+    Ok (xlsb_formats (XlsbStyles.styles_of L)).
 
 Print Assumptions C10_scanner_agrees_with_grammar.
 Print Assumptions C10_first_section_only.
@@ -218,5 +288,9 @@ Print Assumptions C10_date_iff_style_xlsx.
 Print Assumptions C10_date_iff_style_xls.
 Print Assumptions C10_date_iff_style_xls_formula.
 Print Assumptions C10_date_iff_style_xlsb.
+Print Assumptions C10_xlsb_read_styles.
+Print Assumptions C10_xlsb_styles_independent.
+Print Assumptions C10_date_iff_style_xlsb_bytes.
+Print Assumptions C10_no_panic_xlsb_read_styles.
 Print Assumptions C10_spec_cell_meaning.
 Print Assumptions C10_resolve_custom_classify.
